@@ -507,9 +507,12 @@ func (cpu *CPU) cmdRead16() uint16 {
 		m_Absolute_Long_X,
 		m_Absolute_X,
 		m_Absolute_Y,
-		m_Absolute_X_Indirect,
 		m_Stack_Relative_Indirect_Y:
 		return cpu.Bus.eaRead16_cross(cpu.StepInfo.EA)
+
+	case m_Absolute_X_Indirect:
+		// the pointer of JMP/JSR (abs,X) lives in the program bank and wraps at its end
+		return cpu.Bus.nRead16_wrap(cpu.RK, uint16(cpu.StepInfo.EA))
 
 	case m_Absolute,
 		m_DP_X_Indirect,
